@@ -52,7 +52,7 @@ def _symlists(x):
             return _np.array(deep_strip(list(x)), dtype=object).view(SymArray)
         except ValueError:
             return x
-    if isinstance(x, (SR, SB)):
+    if isinstance(x, sym._symtypes()):
         a = _np.empty((), dtype=object)
         a[()] = x
         return a.view(SymArray)
@@ -74,7 +74,7 @@ def _A(x):
         return x
     if isinstance(x, _np.ndarray):
         return x.view(SymArray)
-    if isinstance(x, (SR, SB)):
+    if isinstance(x, sym._symtypes()):
         return _symlists(x)
     if isinstance(x, (list, tuple)):
         if is_sym(x):
@@ -463,6 +463,9 @@ class _CClass:
 
 @override("linspace")
 def linspace(start, stop, num=50, endpoint=True, retstep=False, dtype=None, axis=0):
+    if sym.EXTRA_SCALARS and (isinstance(start, sym.EXTRA_SCALARS) or isinstance(stop, sym.EXTRA_SCALARS)):
+        from . import fp
+        return fp.linspace(start, stop, int(num), endpoint=endpoint, retstep=retstep)
     if not (is_sym(start) or is_sym(stop)):
         r = _np.linspace(deep_strip(start), deep_strip(stop), num=num, endpoint=endpoint, retstep=retstep, axis=axis)
         return deep_wrap(r)
@@ -493,6 +496,9 @@ def arange(*args, dtype=None, **kw):
         start, stop, step = args[0], args[1], 1
     else:
         start, stop, step = args
+    if sym.EXTRA_SCALARS and any(isinstance(a, sym.EXTRA_SCALARS) for a in (start, stop, step)):
+        from . import fp
+        return fp.arange(start, stop, step)
     # numpy: len = ceil((stop - start)/step); v_i = start + i*step   (real arithmetic model)
     span = (stop - start) / step
     n = 0
